@@ -108,14 +108,13 @@ Section NP.
       (destruct (deref t); [destruct (o_string o); [apply np_from_string | apply np_not_from_string; assumption] | apply np_not_from_string; assumption ..]).
   Qed.
 
-  Lemma np_without_value t o : wf_ty t = true -> np (without_value rec_struct rec_map t o).
+  Lemma np_without_value t o : wf_ty t = true -> np (without_value rec_struct t o).
   Proof.
     intro W. pose proof (wf_deref _ W) as W'. unfold without_value. destruct (o_default o).
     - destruct (deref t); try np_leaf. destruct k; try (apply np_bind; [apply np_convert_set | intro; np_leaf]).
       destruct (parse_dur s); np_leaf.
     - destruct (o_optional o); [np_leaf|]. destruct (deref t) eqn:E; try np_leaf.
-      + apply np_fill_map; assumption.
-      + destruct (ty_required (Struct fs)); [np_leaf|]. apply np_bind; [apply Hs; assumption | intro; np_leaf].
+      destruct (ty_required (Struct fs)); [np_leaf|]. apply np_bind; [apply Hs; assumption | intro; np_leaf].
   Qed.
 
   Lemma np_anon_optional t sub m : wf_ty (Struct sub) = true -> np (anon_optional rec_field t sub m).
@@ -299,8 +298,8 @@ Proof.
   apply andb_true_iff in H as [_ H]. split; exact H.
 Qed.
 
-Lemma json_number_exact strict t o raw fi w : json_number t o raw fi = Ok w ->
-  agrees strict t (JNum raw fi) w = true /\ value_in_options o (JNum raw fi) = true /\
+Lemma json_number_exact t o raw fi w : json_number t o raw fi = Ok w ->
+  agrees t (JNum raw fi) w = true /\ value_in_options o (JNum raw fi) = true /\
   (is_int_ty t = true -> value_in_range o w = true).
 Proof.
   unfold json_number. destruct (range_ok_tok o raw fi) eqn:R; [|discriminate]. destruct (in_options o raw) eqn:Op; [|discriminate]. simpl negb. cbv iota.
@@ -331,11 +330,11 @@ Proof.
   unfold wrap_ptr. destruct (is_ptr t); destruct v; try discriminate; exact H.
 Qed.
 
-Lemma agrees_wrap_prim strict t k d v : deref t = Prim k -> leaf_agrees k d v = true -> agrees strict t d (wrap_ptr t v) = true.
+Lemma agrees_wrap_prim t k d v : deref t = Prim k -> leaf_agrees k d v = true -> agrees t d (wrap_ptr t v) = true.
 Proof. intros D H. apply deref_prim in D. destruct D; subst; simpl; exact H. Qed.
 
-Lemma from_string_exact strict t o d w : from_string t o d = Ok w ->
-  agrees strict t d w = true /\ value_in_options o d = true /\ (is_int_ty t = true -> value_in_range o w = true).
+Lemma from_string_exact t o d w : from_string t o d = Ok w ->
+  agrees t d w = true /\ value_in_options o d = true /\ (is_int_ty t = true -> value_in_range o w = true).
 Proof.
   unfold from_string. destruct (deref t) as [k| | | |] eqn:D; try discriminate. destruct d; try discriminate.
   - destruct (in_options o raw) eqn:Op; [|discriminate]. destruct (range_ok_tok o raw fi) eqn:R; [|discriminate]. simpl negb. cbv iota.
@@ -358,18 +357,18 @@ Proof.
     intro NF. apply range_val_value; assumption.
 Qed.
 
-(* options=/range= on a Duration field are not consulted by the code (fillDurationValue); they are outside the
-   quantified tag space (ASSUMPTIONS) *)
+(* options=/range= on a Duration field without the `string` option are not consulted by the code
+   (fillDurationValue): not in the enforced domain *)
 Definition dur_opts_ok (t : ty) (o : fopts) : Prop :=
-  deref t = Prim KDur -> o_options o = [] /\ o_range o = None.
+  deref t = Prim KDur -> o_string o = false -> o_options o = [] /\ o_range o = None.
 
 Section Clauses.
   Variable rec_struct : list field -> obj -> result val.
   Variable rec_slice : ty -> ty -> jv -> result val.
   Variable rec_map : ty -> jv -> result val.
 
-  Lemma field_primitive_prim_exact strict t o d w k : deref t = Prim k -> field_primitive rec_slice t o d = Ok w ->
-    agrees strict t d w = true /\ value_in_options o d = true /\ (is_int_ty t = true -> value_in_range o w = true).
+  Lemma field_primitive_prim_exact t o d w k : deref t = Prim k -> field_primitive rec_slice t o d = Ok w ->
+    agrees t d w = true /\ value_in_options o d = true /\ (is_int_ty t = true -> value_in_range o w = true).
   Proof.
     intros D. unfold field_primitive. rewrite D. destruct d; try (destruct k; discriminate).
     - destruct k; try discriminate. destruct (in_options o (if b then "true" else "false")) eqn:Op; [|discriminate]. simpl negb. cbv iota.
@@ -383,19 +382,19 @@ Section Clauses.
       split; [eapply in_options_value; [reflexivity | exact Op]|]. intro NF. unfold is_int_ty in NF. rewrite D in NF. discriminate.
   Qed.
 
-  Lemma with_value_prim_exact strict t o d w k : deref t = Prim k -> dur_opts_ok t o -> d <> JNull ->
+  Lemma with_value_prim_exact t o d w k : deref t = Prim k -> dur_opts_ok t o -> d <> JNull ->
     with_value rec_struct rec_slice rec_map t o d = Ok w ->
-    agrees strict t d w = true /\ value_in_options o d = true /\ (is_int_ty t = true -> value_in_range o w = true).
+    agrees t d w = true /\ value_in_options o d = true /\ (is_int_ty t = true -> value_in_range o w = true).
   Proof.
     intros D DO Hn H. unfold with_value in H. rewrite D in H.
     assert (H' : (if o_string o then from_string t o d else not_from_string rec_struct rec_slice rec_map t o d) = Ok w)
       by (destruct d; [congruence | exact H ..]). clear H.
-    destruct (o_string o); [apply from_string_exact; exact H'|].
+    destruct (o_string o) eqn:OS; [apply from_string_exact; exact H'|].
     unfold not_from_string in H'. rewrite D in H'.
     destruct (vkind d) eqn:K; try (eapply field_primitive_prim_exact; [exact D | destruct k; exact H']).
     destruct k; try (eapply field_primitive_prim_exact; [exact D | exact H']).
     destruct d; try discriminate. destruct (parse_dur s) eqn:E; [|discriminate]. inversion H'; subst.
-    destruct (DO D) as [O1 O2]. split; [|split].
+    destruct (DO D OS) as [O1 O2]. split; [|split].
     - eapply agrees_wrap_prim; [exact D|]. simpl. rewrite (parse_dur_fits _ _ E), E, Z.eqb_refl. reflexivity.
     - unfold value_in_options. rewrite O1. reflexivity.
     - intros _. unfold value_in_range. rewrite O2. reflexivity.
@@ -404,16 +403,15 @@ Section Clauses.
   (* ---------------- absent fields *)
   Definition required_kind (t : ty) : Prop :=
     match deref t with
-    | Map _ => False                                        (* see required_map_refuted *)
     | Struct fs => ty_required (Struct fs) = true           (* a struct none of whose fields is required is implicitly optional *)
-    | _ => True
+    | _ => True                                             (* scalars, pointers, slices and maps *)
     end.
 
   Lemma without_value_required t o : o_default o = None -> o_optional o = false -> required_kind t ->
-    forall w, without_value rec_struct rec_map t o <> Ok w.
+    forall w, without_value rec_struct t o <> Ok w.
   Proof.
     intros Hd Ho Hk w. unfold without_value. rewrite Hd, Ho. unfold required_kind in Hk.
-    destruct (deref t); try discriminate; [contradiction|]. rewrite Hk. discriminate.
+    destruct (deref t); try discriminate. rewrite Hk. discriminate.
   Qed.
 
   Definition default_image (t : ty) (dv : string) (w : val) : Prop :=
@@ -424,7 +422,7 @@ Section Clauses.
       | _ => False
       end.
 
-  Lemma without_value_default t o dv w : o_default o = Some dv -> without_value rec_struct rec_map t o = Ok w ->
+  Lemma without_value_default t o dv w : o_default o = Some dv -> without_value rec_struct t o = Ok w ->
     default_image t dv w.
   Proof.
     intros Hd. unfold without_value, default_image. rewrite Hd. destruct (deref t) as [k| | | |]; try discriminate.
@@ -434,7 +432,7 @@ Section Clauses.
   Qed.
 
   Lemma without_value_optional t o : o_default o = None -> o_optional o = true ->
-    without_value rec_struct rec_map t o = Ok (zero_val t).
+    without_value rec_struct t o = Ok (zero_val t).
   Proof. intros Hd Ho. unfold without_value. rewrite Hd, Ho. reflexivity. Qed.
 
   Lemma with_value_null t o w : with_value rec_struct rec_slice rec_map t o JNull = Ok w ->
@@ -471,7 +469,7 @@ Lemma named_field_result n fs m vs i f : unm_struct n fs m = Ok (VStruct vs) ->
   nth_error fs i = Some f -> f_anon f = false ->
   exists n' w, nth_error vs i = Some w /\
     match olookup (f_key f) m with
-    | None => without_value (unm_struct n') (gen_map n') (f_ty f) (f_opts f) = Ok w
+    | None => without_value (unm_struct n') (f_ty f) (f_opts f) = Ok w
     | Some d => with_value (unm_struct n') (fill_slice n') (gen_map n') (f_ty f) (f_opts f) d = Ok w
     end.
 Proof.
@@ -510,11 +508,11 @@ Proof.
   - apply with_value_null in Hw as [_ Hw]. exact Hw.
 Qed.
 
-Lemma struct_scalar_present strict n fs m vs i f w d k : unm_struct n fs m = Ok (VStruct vs) ->
+Lemma struct_scalar_present n fs m vs i f w d k : unm_struct n fs m = Ok (VStruct vs) ->
   nth_error fs i = Some f -> nth_error vs i = Some w -> f_anon f = false ->
   deref (f_ty f) = Prim k -> dur_opts_ok (f_ty f) (f_opts f) ->
   olookup (f_key f) m = Some d -> d <> JNull ->
-  agrees strict (f_ty f) d w = true /\ value_in_options (f_opts f) d = true /\
+  agrees (f_ty f) d w = true /\ value_in_options (f_opts f) d = true /\
   (is_int_ty (f_ty f) = true -> value_in_range (f_opts f) w = true).
 Proof.
   intros H Hi Hv Ha D DO Hk Hn. destruct (named_field_result _ _ _ _ _ _ H Hi Ha) as [n2 [w' [Hw' Hw]]]. rewrite Hk in Hw.
@@ -629,3 +627,379 @@ Proof.
   intros f Hin. destruct (H f Hin) as [Ha [Ho [Hd Hk]]]. cbn [unm_field]. unfold process_field. rewrite Ha, Hk.
   apply without_value_optional; assumption.
 Qed.
+
+(* ================================================================== c05_exact: the full statement *)
+Definition no_options (o : fopts) : bool := match o_options o with [] => true | _ => false end.
+Definition no_range (o : fopts) : bool := match o_range o with None => true | _ => false end.
+Definition no_default (o : fopts) : bool := match o_default o with None => true | _ => false end.
+
+(* the domain on which the code enforces options= / range= (everything else was probed on the Go code and is
+   NOT enforced: Duration without `string`, slice / map / struct fields) *)
+Definition opts_okb (t : ty) (o : fopts) : bool :=
+  match deref t with
+  | Prim (KInt _) | Prim (KUint _) => true                 (* options= and range=: every path *)
+  | Prim KDur => o_string o || (no_options o && no_range o) (* only as `string`-tagged integer of nanoseconds *)
+  | Prim _ => no_range o                                   (* bool, string, floats: options= enforced; float range opaque *)
+  | _ => no_options o && no_range o                        (* containers: never applied to elements *)
+  end.
+
+(* embedded: a struct; an optional one has only named members without default= (processAnonymousFieldOptional
+   does not apply defaults of absent members) *)
+Definition field_okb (f : field) : bool :=
+  if f_anon f then
+    match deref (f_ty f) with
+    | Struct sub => if o_optional (f_opts f) then forallb (fun sf => negb (f_anon sf) && no_default (f_opts sf)) sub else true
+    | _ => false
+    end
+  else opts_okb (f_ty f) (f_opts f).
+
+Fixpoint wfx (t : ty) : bool :=
+  match t with
+  | Prim _ => true
+  | Ptr t' | Slice t' | Map t' => wfx t'
+  | Struct fs => forallb (fun f => wfx (f_ty f) && field_okb f) fs
+  end.
+Definition wfx_field (f : field) : bool := wfx (f_ty f) && field_okb f.
+
+Lemma wfx_deref t : wfx t = true -> wfx (deref t) = true.
+Proof. destruct t; simpl; auto. Qed.
+Lemma wfx_struct_fields fs f : wfx (Struct fs) = true -> In f fs -> wfx_field f = true.
+Proof. simpl. intros H Hin. rewrite forallb_forall in H. apply H. assumption. Qed.
+
+Lemma all2_Forall2 {A B} (R : A -> B -> bool) l1 l2 : Forall2 (fun a b => R a b = true) l1 l2 -> all2 R l1 l2 = true.
+Proof. induction 1; simpl; [reflexivity|]. rewrite H, IHForall2. reflexivity. Qed.
+
+Lemma val_eqb_refl : forall v, val_eqb v v = true.
+Proof.
+  fix IH 1. intro v. destruct v; simpl; try reflexivity.
+  - apply eqb_reflx.
+  - apply Z.eqb_refl.
+  - destruct (canon && canon); [apply String.eqb_refl | reflexivity].
+  - apply String.eqb_refl.
+  - apply IH.
+  - induction l as [|a r IHl]; simpl; [reflexivity|]. rewrite IH, IHl. reflexivity.
+  - induction m as [|[k a] r IHl]; simpl; [reflexivity|]. rewrite String.eqb_refl, IH, IHl. reflexivity.
+  - induction l as [|a r IHl]; simpl; [reflexivity|]. rewrite IH, IHl. reflexivity.
+Qed.
+
+Lemma agrees_wrap t d v : agrees (deref t) d v = true -> agrees t d (wrap_ptr t v) = true.
+Proof. destruct t; simpl; auto. Qed.
+Lemma unwrap_wrap t v : unwrap t (wrap_ptr t v) = Some v.
+Proof. unfold unwrap, wrap_ptr. destruct (is_ptr t); reflexivity. Qed.
+
+Lemma json_number_nonprim t o raw fi w : (forall k, deref t <> Prim k) -> json_number t o raw fi <> Ok w.
+Proof.
+  intros N. unfold json_number. destruct (negb (range_ok_tok o raw fi)); [discriminate|]. destruct (negb (in_options o raw)); [discriminate|].
+  destruct (deref t) eqn:D; try discriminate. exfalso. eapply N. reflexivity.
+Qed.
+
+Lemma filter_len_le {A} (p q : A -> bool) l : (List.length (filter (fun x => p x && q x) l) <= List.length (filter p l))%nat.
+Proof. induction l as [|a r IH]; simpl; [lia|]. destruct (p a), (q a); simpl; lia. Qed.
+Lemma filter_len_eq {A} (p q : A -> bool) l :
+  List.length (filter p l) = List.length (filter (fun x => p x && q x) l) -> forall x, In x l -> p x = true -> q x = true.
+Proof.
+  induction l as [|a r IH]; simpl; intros E x Hin Hp; [destruct Hin|].
+  pose proof (filter_len_le p q r) as Le.
+  destruct (p a) eqn:Pa, (q a) eqn:Qa; simpl in E; destruct Hin as [<-|Hin]; try congruence; try (apply IH; auto; lia); try lia.
+Qed.
+
+Lemma Forall2_impl {A B} (R1 R2 : A -> B -> Prop) l1 l2 : (forall a b, R1 a b -> R2 a b) -> Forall2 R1 l1 l2 -> Forall2 R2 l1 l2.
+Proof. intros H F. induction F; constructor; auto. Qed.
+
+Section Exact.
+  Variable rec_struct : list field -> obj -> result val.
+  Variable rec_slice : ty -> ty -> jv -> result val.
+  Variable rec_map : ty -> jv -> result val.
+  Variable rec_field : field -> obj -> result val.
+  Hypothesis Hs : forall fs m v, wfx (Struct fs) = true -> rec_struct fs m = Ok v -> agrees (Struct fs) (JObj m) v = true.
+  Hypothesis Hl : forall t et d v, wfx et = true -> rec_slice t et d = Ok v -> (exists e, t = Slice e) /\ agrees (Slice et) d v = true.
+  Hypothesis Hm : forall et d v, wfx et = true -> rec_map et d = Ok v -> agrees (Map et) d v = true.
+  Hypothesis Hf : forall f m w, wfx_field f = true -> rec_field f m = Ok w -> field_agrees f m w = true.
+
+  Lemma x_with_value t o d w : wfx t = true -> opts_okb t o = true -> d <> JNull ->
+    with_value rec_struct rec_slice rec_map t o d = Ok w ->
+    agrees t d w && value_in_options o d && value_in_range o w = true.
+  Proof.
+    intros W OK Hn H. pose proof (wfx_deref _ W) as W'. unfold opts_okb in OK.
+    destruct (deref t) as [k|t1|et|et|fs] eqn:D.
+    - (* scalars and pointers to scalars *)
+      assert (DO : dur_opts_ok t o).
+      { intros Dk OS. rewrite D in Dk. inversion Dk; subst k. rewrite OS in OK. simpl in OK. apply andb_true_iff in OK as [O1 O2].
+        unfold no_options in O1. unfold no_range in O2. destruct (o_options o); [|discriminate]. destruct (o_range o); [discriminate|]. auto. }
+      destruct (with_value_prim_exact _ _ _ _ _ _ _ _ D DO Hn H) as [A [O R]]. rewrite A, O. simpl.
+      destruct (is_int_ty t) eqn:I; [apply R; reflexivity|]. unfold is_int_ty in I. rewrite D in I.
+      unfold value_in_range. destruct k; try discriminate; unfold no_range in OK; destruct (o_range o); try discriminate; reflexivity.
+    - (* pointer to pointer: nothing is accepted *)
+      exfalso. unfold with_value, not_from_string, field_primitive in H. rewrite D in H.
+      destruct d; try congruence; simpl in H; try discriminate. eapply json_number_nonprim; [|exact H]. intros k E. rewrite D in E. discriminate.
+    - apply andb_true_iff in OK as [O1 O2]. unfold no_options in O1. unfold no_range in O2.
+      assert (VO : value_in_options o d = true) by (unfold value_in_options; destruct (o_options o); [reflexivity|discriminate]).
+      assert (VR : value_in_range o w = true) by (unfold value_in_range; destruct (o_range o); [discriminate|reflexivity]).
+      rewrite VO, VR, !andb_true_r.
+      unfold with_value, not_from_string, field_primitive in H. rewrite D in H.
+      destruct d; try congruence; simpl in H; try discriminate.
+      try (exfalso; eapply json_number_nonprim; [|exact H]; intros k0 E0; rewrite D in E0; discriminate).
+      apply Hl in H as [[e ->] A]; [|exact W']. simpl in D. inversion D; subst. exact A.
+    - apply andb_true_iff in OK as [O1 O2]. unfold no_options in O1. unfold no_range in O2.
+      assert (VO : value_in_options o d = true) by (unfold value_in_options; destruct (o_options o); [reflexivity|discriminate]).
+      assert (VR : value_in_range o w = true) by (unfold value_in_range; destruct (o_range o); [discriminate|reflexivity]).
+      rewrite VO, VR, !andb_true_r.
+      unfold with_value, not_from_string, field_primitive, fill_map in H. rewrite D in H.
+      destruct d; try congruence; simpl in H; try discriminate.
+      try (exfalso; eapply json_number_nonprim; [|exact H]; intros k0 E0; rewrite D in E0; discriminate).
+      destruct t; simpl in D; try discriminate. inversion D; subst. apply Hm; assumption.
+    - apply andb_true_iff in OK as [O1 O2]. unfold no_options in O1. unfold no_range in O2.
+      assert (VO : value_in_options o d = true) by (unfold value_in_options; destruct (o_options o); [reflexivity|discriminate]).
+      assert (VR : value_in_range o w = true) by (unfold value_in_range; destruct (o_range o); [discriminate|reflexivity]).
+      rewrite VO, VR, !andb_true_r.
+      unfold with_value, not_from_string, field_primitive in H. rewrite D in H.
+      destruct d; try congruence; simpl in H; try discriminate.
+      try (exfalso; eapply json_number_nonprim; [|exact H]; intros k0 E0; rewrite D in E0; discriminate).
+      apply bind_ok in H as [v [Hv H]]. inversion H; subst. apply agrees_wrap. rewrite D. apply Hs; assumption.
+  Qed.
+
+  (* the `None` branch of field_agrees *)
+  Lemma x_without_value t o w : wfx t = true -> without_value rec_struct t o = Ok w ->
+    match o_default o with
+    | Some dv =>
+        match deref t, unwrap t w with
+        | Prim KDur, Some (VInt z) => match parse_dur dv with Some z' => z =? z' | None => false end
+        | Prim k, Some w' => leaf_agrees k (JStr dv) w'
+        | _, _ => false
+        end
+    | None =>
+        if o_optional o then val_eqb w (zero_val t)
+        else match deref t, unwrap t w with
+             | Struct sub, Some w' => negb (ty_required (deref t)) && agrees (deref t) (JObj []) w'
+             | _, _ => false
+             end
+    end = true.
+  Proof.
+    intros W H. pose proof (wfx_deref _ W) as W'. unfold without_value in H. destruct (o_default o) as [dv|].
+    - destruct (deref t) as [k| | | |] eqn:D; try discriminate.
+      destruct k; try (apply bind_ok in H as [v0 [Hc H]]; inversion H; subst; rewrite unwrap_wrap;
+                       exact (convert_set_exact _ _ None _ Hc)).
+      destruct (parse_dur dv) eqn:E; [|discriminate]. inversion H; subst. rewrite unwrap_wrap. apply Z.eqb_refl.
+    - destruct (o_optional o); [inversion H; apply val_eqb_refl|].
+      destruct (deref t) as [k| | | |fs] eqn:D; try discriminate.
+      destruct (ty_required (Struct fs)) eqn:R; [discriminate|]. apply bind_ok in H as [v [Hv H]]. inversion H; subst.
+      rewrite unwrap_wrap. simpl negb. apply Hs; assumption.
+  Qed.
+
+  Lemma x_anon_members sub m : forall rs,
+    (forall sf, In sf sub -> wfx_field sf = true /\ f_anon sf = false /\ o_default (f_opts sf) = None /\
+                             (o_optional (f_opts sf) = false -> olookup (f_key sf) m <> None)) ->
+    mapM (fun sf => match olookup (f_key sf) m with
+                    | Some _ => bind (rec_field sf m) (fun v => Ok (v, true))
+                    | None => Ok (zero_val (f_ty sf), false)
+                    end) sub = Ok rs ->
+    all2 (fun f w => field_agrees f m w) sub (map fst rs) = true.
+  Proof.
+    induction sub as [|sf r IH]; simpl; intros rs P H.
+    - inversion H. reflexivity.
+    - apply bind_ok in H as [b [Hb H]]. apply bind_ok in H as [bs [Hbs H]]. inversion H; subst. simpl.
+      rewrite (IH bs) by (auto; intros; apply P; auto). rewrite andb_true_r.
+      destruct (P sf (or_introl eq_refl)) as [Wf [An [Df Req]]].
+      destruct (olookup (f_key sf) m) eqn:K.
+      + apply bind_ok in Hb as [v [Hv Hb]]. inversion Hb; subst. simpl. apply Hf; assumption.
+      + inversion Hb; subst. simpl. unfold field_agrees. rewrite An, K, Df.
+        destruct (o_optional (f_opts sf)); [apply val_eqb_refl|]. exfalso. apply Req; reflexivity.
+  Qed.
+
+  Lemma x_process_field f m w : wfx_field f = true ->
+    process_field rec_struct rec_slice rec_map rec_field f m = Ok w -> field_agrees f m w = true.
+  Proof.
+    intros Wf H. unfold wfx_field in Wf. apply andb_true_iff in Wf as [W OK]. unfold field_okb in OK.
+    unfold process_field in H. unfold field_agrees. destruct (f_anon f) eqn:An.
+    - unfold has_key. destruct (olookup (f_key f) m); [discriminate|]. simpl negb. rewrite andb_true_l.
+      pose proof (wfx_deref _ W) as W'. destruct (deref (f_ty f)) as [| | | |sub] eqn:D; try discriminate.
+      destruct (o_optional (f_opts f)) eqn:Op.
+      + (* processAnonymousFieldOptional *)
+        unfold anon_optional in H. apply bind_ok in H as [rs [Hrs H]].
+        destruct (existsb snd rs).
+        * destruct (Nat.eqb _ _) eqn:Cnt in H; [|discriminate]. inversion H; subst. apply Nat.eqb_eq in Cnt.
+          apply orb_true_iff. right. rewrite unwrap_wrap. rewrite agrees_struct.
+          apply (x_anon_members sub m rs); [|exact Hrs]. intros sf Hin.
+          rewrite forallb_forall in OK. specialize (OK sf Hin). apply andb_true_iff in OK as [O1 O2].
+          split; [eapply wfx_struct_fields; eauto|]. split; [destruct (f_anon sf); [discriminate|reflexivity]|].
+          split; [unfold no_default in O2; destruct (o_default (f_opts sf)); [discriminate|reflexivity]|].
+          intros Ho K.
+          pose proof (filter_len_eq (fun sf => negb (o_optional (f_opts sf)))
+                        (fun sf => match olookup (f_key sf) m with Some _ => true | None => false end) sub Cnt sf Hin) as Q.
+          cbv beta in Q. rewrite Ho, K in Q. specialize (Q eq_refl). discriminate.
+        * inversion H; subst. rewrite val_eqb_refl. reflexivity.
+      + apply bind_ok in H as [vs [Hvs H]]. inversion H; subst. apply orb_true_iff. right. rewrite unwrap_wrap, agrees_struct.
+        apply all2_Forall2. apply mapM_ok in Hvs.
+        assert (G : forall l vs0, (forall sf, In sf l -> In sf sub) -> Forall2 (fun a b => rec_field a m = Ok b) l vs0 ->
+                                  Forall2 (fun a b => field_agrees a m b = true) l vs0).
+        { induction 2; constructor; [apply Hf; [eapply wfx_struct_fields; [exact W'|]; apply H0; left; reflexivity | assumption]|].
+          apply IHForall2. intros; apply H0; right; assumption. }
+        apply G; auto.
+    - destruct (olookup (f_key f) m) as [d|] eqn:K.
+      + destruct d; try (apply x_with_value; [assumption | assumption | discriminate | exact H]).
+        unfold with_value in H. destruct (o_optional (f_opts f)); [|discriminate]. inversion H. apply val_eqb_refl.
+      + exact (x_without_value _ _ _ W H).
+  Qed.
+
+  Lemma x_slice_value et x w : wfx et = true -> slice_value rec_map et x = Ok w -> agrees et x w = true.
+  Proof.
+    intros W H. unfold slice_value in H. destruct x; try discriminate.
+    - destruct et as [k|t1| | |]; try discriminate; [destruct k; try discriminate; inversion H; simpl; apply eqb_reflx|].
+      destruct t1 as [k| | | |]; try discriminate. destruct k; try discriminate. inversion H. simpl. apply eqb_reflx.
+    - destruct et as [k|t1| | |]; try discriminate; [exact (convert_set_exact _ _ (Some fi) _ H)|].
+      destruct t1 as [k| | | |]; try discriminate. apply bind_ok in H as [v [Hc H]]. inversion H; subst. exact (convert_set_exact _ _ (Some fi) _ Hc).
+    - destruct et as [k|t1| | |]; try discriminate; [exact (convert_set_exact _ _ None _ H)|].
+      destruct t1 as [k| | | |]; try discriminate. apply bind_ok in H as [v [Hc H]]. inversion H; subst. exact (convert_set_exact _ _ None _ Hc).
+    - destruct et; try discriminate. apply Hm; assumption.
+  Qed.
+
+  Lemma x_slice_elem et x w : wfx et = true -> slice_elem rec_struct rec_slice rec_map et x = Ok w -> agrees et x w = true.
+  Proof.
+    intros W H. pose proof (wfx_deref _ W) as W'. unfold slice_elem in H.
+    destruct (deref et) as [k|t1|et2|et2|fs] eqn:D; try (apply x_slice_value; assumption).
+    - destruct (is_ptr et) eqn:P; [discriminate|]. apply Hl in H as [[e E] A]; [|exact W'].
+      destruct et; simpl in D, P; try discriminate. inversion D; subst. exact A.
+    - destruct x; try discriminate. apply bind_ok in H as [v [Hv H]]. inversion H; subst. apply agrees_wrap. rewrite D. apply Hs; assumption.
+  Qed.
+
+  Lemma x_fill_slice_body t et d v : wfx et = true -> fill_slice_body rec_struct rec_slice rec_map t et d = Ok v ->
+    (exists e, t = Slice e) /\ agrees (Slice et) d v = true.
+  Proof.
+    intros W H. unfold fill_slice_body in H. destruct t; try discriminate. split; [eauto|].
+    destruct d; try discriminate. destruct l as [|x l]; [inversion H; reflexivity|].
+    apply bind_ok in H as [vs [Hvs H]]. apply mapM_ok in Hvs.
+    destruct (forallb is_null (x :: l)) eqn:N; inversion H; subst.
+    - simpl. exact N.
+    - assert (A : all2 (fun x w => if is_null x then val_eqb w (zero_val et) else agrees et x w) (x :: l) vs = true).
+      { apply all2_Forall2. eapply Forall2_impl; [|exact Hvs]. intros a b Hab. simpl in Hab.
+        destruct (is_null a); [inversion Hab; apply val_eqb_refl | apply x_slice_elem; assumption]. }
+      inversion Hvs; subst. cbn [agrees]. rewrite N. simpl negb. rewrite andb_true_l. exact A.
+  Qed.
+
+  Lemma x_map_elem et x w : wfx et = true -> map_elem rec_struct rec_slice rec_map et x = Ok w -> agrees et x w = true.
+  Proof.
+    intros W H. pose proof (wfx_deref _ W) as W'. unfold map_elem in H.
+    destruct (is_ptr et && negb match deref et with Struct _ => true | _ => false end) eqn:P; [discriminate|].
+    destruct (deref et) as [k|t1|et2|et2|fs] eqn:D; try discriminate.
+    - assert (E : et = Prim k). { destruct et; simpl in D, P; try discriminate; try congruence; try (subst; simpl in P; discriminate). }
+      subst et. destruct x; try discriminate.
+      + destruct k; try discriminate. inversion H. simpl. apply eqb_reflx.
+      + exact (convert_set_exact _ _ (Some fi) _ H).
+      + destruct k; try discriminate. inversion H. simpl. apply String.eqb_refl.
+    - assert (E : et = Slice et2). { destruct et; simpl in D, P; try discriminate; try congruence; try (subst; simpl in P; discriminate). }
+      subst et. apply Hl in H as [_ A]; assumption.
+    - assert (E : et = Map et2). { destruct et; simpl in D, P; try discriminate; try congruence; try (subst; simpl in P; discriminate). }
+      subst et. destruct x; try discriminate. apply Hm; assumption.
+    - destruct x; try discriminate. apply bind_ok in H as [v [Hv H]]. inversion H; subst. apply agrees_wrap. rewrite D. apply Hs; assumption.
+  Qed.
+
+  Lemma x_gen_map_body et d v : wfx et = true -> gen_map_body rec_struct rec_slice rec_map et d = Ok v -> agrees (Map et) d v = true.
+  Proof.
+    intros W H. unfold gen_map_body in H. destruct d; try discriminate. apply bind_ok in H as [l [Hl' H]]. inversion H; subst.
+    cbn [agrees]. apply all2_Forall2. apply mapM_ok in Hl'. eapply Forall2_impl; [|exact Hl']. intros [k x] [k' w] Hab. simpl in *.
+    apply bind_ok in Hab as [w0 [Hw Hab]]. inversion Hab; subst. rewrite String.eqb_refl. apply x_map_elem; assumption.
+  Qed.
+End Exact.
+
+Lemma exact_fuel : forall n,
+  (forall fs m v, wfx (Struct fs) = true -> unm_struct n fs m = Ok v -> agrees (Struct fs) (JObj m) v = true) /\
+  (forall f m w, wfx_field f = true -> unm_field n f m = Ok w -> field_agrees f m w = true) /\
+  (forall t et d v, wfx et = true -> fill_slice n t et d = Ok v -> (exists e, t = Slice e) /\ agrees (Slice et) d v = true) /\
+  (forall et d v, wfx et = true -> gen_map n et d = Ok v -> agrees (Map et) d v = true).
+Proof.
+  induction n as [|n [IHs [IHf [IHl IHm]]]].
+  - repeat split; intros; simpl in *; discriminate.
+  - split; [|split; [|split]].
+    + intros fs m v W H. cbn [unm_struct] in H. apply bind_ok in H as [vs [Hvs H]]. inversion H; subst.
+      rewrite agrees_struct. apply all2_Forall2. apply mapM_ok in Hvs.
+      assert (G : forall l vs0, (forall f, In f l -> In f fs) -> Forall2 (fun a b => unm_field n a m = Ok b) l vs0 ->
+                                Forall2 (fun a b => field_agrees a m b = true) l vs0).
+      { induction 2; constructor; [apply IHf; [eapply wfx_struct_fields; [exact W|]; apply H0; left; reflexivity | assumption]|].
+        apply IHForall2. intros; apply H0; right; assumption. }
+      apply G; auto.
+    + intros f m w W H. cbn [unm_field] in H. eapply x_process_field; eauto.
+    + intros t et d v W H. cbn [fill_slice] in H. eapply x_fill_slice_body; eauto.
+    + intros et d v W H. cbn [gen_map] in H. eapply x_gen_map_body; eauto.
+Qed.
+
+Lemma exact : forall n t d v, wfx t = true -> unmarshal n t d = Ok v -> agrees t d v = true.
+Proof.
+  intros n t d v W H. unfold unmarshal in H. destruct t; try discriminate. destruct d; try discriminate.
+  eapply (proj1 (exact_fuel n)); eauto.
+Qed.
+
+(* ------------------------------------------------------------------ the domain of options= / range= enforcement *)
+Definition options_enforced_on (t : ty) (o : fopts) : Prop :=
+  exists k, deref t = Prim k /\ (k = KDur -> o_string o = true).
+Definition range_enforced_on (t : ty) (o : fopts) : Prop :=
+  exists k, deref t = Prim k /\
+    ((exists w, k = KInt w) \/ (exists w, k = KUint w) \/ (k = KDur /\ o_string o = true)).
+
+Lemma struct_options_enforced n fs m vs i f w d : unm_struct n fs m = Ok (VStruct vs) ->
+  nth_error fs i = Some f -> nth_error vs i = Some w -> f_anon f = false ->
+  options_enforced_on (f_ty f) (f_opts f) -> olookup (f_key f) m = Some d -> d <> JNull ->
+  value_in_options (f_opts f) d = true.
+Proof.
+  intros H Hi Hv Ha [k [D S]] Hk Hn.
+  eapply struct_scalar_present; eauto. intros Dk OS. rewrite D in Dk. inversion Dk; subst. rewrite S in OS by reflexivity. discriminate.
+Qed.
+
+Lemma struct_range_enforced n fs m vs i f w d : unm_struct n fs m = Ok (VStruct vs) ->
+  nth_error fs i = Some f -> nth_error vs i = Some w -> f_anon f = false ->
+  range_enforced_on (f_ty f) (f_opts f) -> olookup (f_key f) m = Some d -> d <> JNull ->
+  value_in_range (f_opts f) w = true.
+Proof.
+  intros H Hi Hv Ha [k [D S]] Hk Hn.
+  assert (DO : dur_opts_ok (f_ty f) (f_opts f)).
+  { intros Dk OS. rewrite D in Dk. inversion Dk; subst. destruct S as [[w0 E]|[[w0 E]|[_ E]]]; try discriminate. rewrite E in OS. discriminate. }
+  destruct (struct_scalar_present _ _ _ _ _ _ _ _ _ H Hi Hv Ha D DO Hk Hn) as [_ [_ R]]. apply R.
+  unfold is_int_ty. rewrite D. destruct S as [[w0 ->]|[[w0 ->]|[-> _]]]; reflexivity.
+Qed.
+
+(* ------------------------------------------------------------------ round trip of the transport parts *)
+Section TransportRT.
+  Variable esc unesc : string -> string.
+  Hypothesis unesc_esc : forall s, unesc (esc s) = s.
+  Variable canon : string -> string.
+  Variable trim : string -> string.
+
+  Lemma path_roundtrip p m w : fill_path esc p m = Some w ->
+    match_path unesc p w = Some (map (fun n => (n, match olookup n m with Some v => v | None => EmptyString end)) (path_vars p)).
+  Proof.
+    revert w. induction p as [|s r IH]; simpl; intros w H.
+    - inversion H. reflexivity.
+    - destruct s as [s|n].
+      + destruct (fill_path esc r m) as [w'|]; [|discriminate]. inversion H; subst. rewrite String.eqb_refl. apply IH. reflexivity.
+      + destruct (olookup n m) as [v|] eqn:K; [|discriminate]. destruct (String.eqb v ""); [discriminate|].
+        destruct (fill_path esc r m) as [w'|]; [|discriminate]. inversion H; subst. rewrite (IH w' eq_refl). simpl. rewrite unesc_esc. reflexivity.
+  Qed.
+
+  Lemma fill_path_defined p m : (forall n, In n (path_vars p) -> exists v, olookup n m = Some v /\ v <> EmptyString) ->
+    exists w, fill_path esc p m = Some w.
+  Proof.
+    induction p as [|s r IH]; simpl; intro H; [eauto|]. destruct s as [s|n].
+    - destruct IH as [w E]; [intros; apply H; assumption|]. rewrite E. simpl. eauto.
+    - destruct (H n (or_introl eq_refl)) as [v [E Hv]]. rewrite E.
+      destruct (String.eqb v "") eqn:Ev; [apply String.eqb_eq in Ev; contradiction|].
+      destruct IH as [w E']; [intros; apply H; right; assumption|]. rewrite E'. simpl. eauto.
+  Qed.
+
+  Lemma query_roundtrip m : (forall kv, In kv m -> snd kv <> EmptyString) -> parse_query unesc (build_query esc m) = m.
+  Proof.
+    unfold parse_query, build_query. induction m as [|[k v] r IH]; simpl; intro H; [reflexivity|].
+    rewrite unesc_esc. destruct (String.eqb v "") eqn:E.
+    - apply String.eqb_eq in E. exfalso. apply (H (k, v)); auto.
+    - simpl. f_equal. apply IH. intros; apply H; auto.
+  Qed.
+
+  Lemma header_roundtrip m : NoDup (map (fun kv => canon (fst kv)) m) -> (forall kv, In kv m -> trim (snd kv) = snd kv) ->
+    forall k v, In (k, v) m -> header_get canon k (transport_header trim (build_header canon m)) = Some v.
+  Proof.
+    unfold header_get, transport_header, build_header, olookup. induction m as [|[k0 v0] r IH]; simpl; intros ND T k v Hin; [destruct Hin|].
+    inversion ND as [|x l Hnot ND']; subst. destruct Hin as [E|Hin].
+    - inversion E; subst. rewrite String.eqb_refl. f_equal. apply (T (k, v)). auto.
+    - destruct (String.eqb (canon k) (canon k0)) eqn:Ek.
+      + apply String.eqb_eq in Ek. exfalso. apply Hnot. rewrite <- Ek. apply (in_map (fun kv => canon (fst kv)) r (k, v)). exact Hin.
+      + apply IH; auto.
+  Qed.
+End TransportRT.
